@@ -231,3 +231,48 @@ func c19CliSort(r *Run) {
 	}
 	r.notes = append(r.notes, fmt.Sprintf("gts sort on the real binary: %d runs, 2..6 records with repeated lengths, with and without -r / --reverse", done))
 }
+
+// c19CliClearDefine: `gts clear` (exactly the source features stay) and `gts define key location [-q name=value]`
+// (the feature is inserted where FeatureSlice.Insert puts it) on the real binary
+func c19CliClearDefine(r *Run) {
+	n := 30
+	if r.tier == "thorough" {
+		n = 200
+	}
+	done := 0
+	for t := 0; t < 20*n && done < n; t++ {
+		L := 12 + r.rng.intn(20)
+		seq := cliRecord(r.rng, c19GenTable(r.rng, L), L, "acgt")
+		if seq == nil || len(seq.Features()) == 0 {
+			continue
+		}
+		done++
+		if done%2 == 0 {
+			var want gts.FeatureSlice
+			for _, f := range seq.Features() {
+				if f.Key == "source" {
+					want = append(want, f)
+				}
+			}
+			r.count(fmt.Sprintf("cli-clear/sources=%d", len(want)))
+			cliOneRecord(r, "clear", "gts clear keeps exactly the source features, in table order", []string{"clear", "--no-cache"}, nil, seq,
+				gts.New(nil, want, seq.Bytes()), fmt.Sprintf("cli.clear | %s", encSeq(seq)))
+			continue
+		}
+		s := r.rng.intn(L - 1)
+		loc := gts.Range(s, s+1+r.rng.intn(L-s-1))
+		key := []string{"gene", "misc_feature", "source"}[r.rng.intn(3)]
+		props := gts.Props{}
+		args := []string{"define", "--no-cache"}
+		if r.rng.intn(2) == 0 {
+			args = append(args, "-q", "note=a=b")
+			props.Add("note", "a=b")
+		}
+		args = append(args, key, loc.String())
+		want := gts.FeatureSlice(append([]gts.Feature{}, seq.Features()...)).Insert(gts.NewFeature(key, loc, props))
+		r.count("cli-define/key=" + key)
+		cliOneRecord(r, "define", "gts define inserts the one feature (key, location, -q qualifiers) where FeatureSlice.Insert puts it", args, nil, seq,
+			gts.New(nil, want, seq.Bytes()), fmt.Sprintf("cli.define %s | %s", strings.Join(args[2:], " "), encSeq(seq)))
+	}
+	r.notes = append(r.notes, fmt.Sprintf("gts clear / gts define on the real binary: %d runs", done))
+}
